@@ -246,6 +246,9 @@ func (se *SpecEnv) binary(e *SBinary) SVal {
 		return SVal{T: se.compare(e.Op, se.eval(e.X), se.eval(e.Y))}
 	}
 	x, y := se.value(se.eval(e.X)), se.value(se.eval(e.Y))
+	if x.Sort == SStr && y.Sort == SStr && e.Op == "+" {
+		return SVal{T: app(SStr, "strcat", x, y), Ty: types.Typ[types.String]}
+	}
 	if x.Sort != SInt || y.Sort != SInt {
 		return se.fail("arithmetic on %s %s %s", x.Sort, e.Op, y.Sort)
 	}
